@@ -11,7 +11,7 @@
   hypothesis says otherwise; `Closed b` ("no marker of `b` reaches below `b`")
   holds for every object the implementation can build (`C07_closed_reachable`).
 -/
-import RsjProofs.ObjectEval
+import RsjProofs.ObjectReads
 set_option linter.unusedSimpArgs false
 namespace Rsj.Object
 
@@ -82,15 +82,19 @@ theorem C07_empty_left_identity (a : Obj) :
     (∀ n, hasVisibleField (extend empty a) n = hasVisibleField a n) ∧
     (∀ i n, findField (extend empty a) i n = findField a i n) ∧
     (∀ fuel stack i n, okOf (evalAt (extend empty a) fuel stack i n) = okOf (evalAt a fuel stack i n)) ∧
-    (∀ n, okOf (fieldValue (extend empty a) n) = okOf (fieldValue a n)) := by
-  refine ⟨?_, ?_, findField_extend_empty_left a, evalAt_append_empty a, ?_⟩
-  · exact fieldsOrder_congr (names_extend_empty_left a)
+    (∀ n, okOf (fieldValue (extend empty a) n) = okOf (fieldValue a n)) ∧
+    (manifest (extend empty a)).toOption = (manifest a).toOption := by
+  have hfo : fieldsOrder (extend empty a) = fieldsOrder a :=
+    fieldsOrder_congr (names_extend_empty_left a)
       (fun n => by rw [finalVis_eq, finalVis_eq, visList_extend_empty_left])
-  · intro n; rw [hasVisibleField_eq, hasVisibleField_eq, visList_extend_empty_left]
-  · intro n
+  have hfv : ∀ n, okOf (fieldValue (extend empty a) n) = okOf (fieldValue a n) := by
+    intro n
     unfold fieldValue fuelFor
     rw [fieldCount_extend_empty_left]
     exact evalAt_append_empty a _ [] 0 n
+  refine ⟨hfo, ?_, findField_extend_empty_left a, evalAt_append_empty a, hfv, ?_⟩
+  · intro n; rw [hasVisibleField_eq, hasVisibleField_eq, visList_extend_empty_left]
+  · exact manifest_toOption_congr (by unfold visibleFields; rw [hfo]) hfv
 
 /-! ### `self` and `super` -/
 
@@ -257,26 +261,122 @@ theorem C07_removeKey_extend_fieldsOrder (o : Obj) (k : Name) :
   · intro b n v hb hn; simp only [mem_fieldsOrder, finalVis_extend_removeKey_left _ _ hb, hn, if_false]
   · intro b v hb; simp only [mem_fieldsOrder, finalVis_extend_removeKey_left _ _ hb, if_true]
 
-/-- Full statement about values: the value of every field whose evaluation
-    does not read `k` through `self` is intact.  "Does not read" is dynamic
-    here: `evalAt o` and `evalAt (removeKey o k)` may only differ when some
-    `self.k` is forced on the way.  -/
-def C07_removeKey_values_full : Prop :=
-  ∀ (o : Obj) (k n : Name) (fuel : Nat),
-    n ≠ k →
-    evalAt (removeKey o k) fuel [] 0 n ≠ evalAt o fuel [] 0 n →
-    ∃ start m li v p stack, findField o start m = some (li, v, p, .selfField k) ∧
-      -- that body is actually forced during the evaluation of `n`
-      evalAt o fuel stack start m ≠ evalAt (removeKey o k) fuel (stack.map shift1) (if start = 0 then 0 else start + 1) m
+/-- **C07 removeKey_exact (values).**  `evalAtG k o …` is the evaluation of a
+    field of `o` instrumented to report `none` exactly when some body `self.k`
+    is forced on the way (`RsjProofs/ObjectReads.lean`).  Whenever the
+    evaluation of field `n ≠ k` of `o` does *not* read `k` through `self` and
+    yields `r` (a value or an error), field `n` of `std.objectRemoveKey(o, k)`
+    yields the same `r` — from the top, and from any inner layer (`super`
+    chains), under any stack and fuel.  Reads of `k` through `super.k`,
+    `'k' in super` or `k+:` inside `o` do not count: they are unaffected. -/
+theorem C07_removeKey_values (o : Obj) (k : Name) :
+    (∀ fuel stack n r, n ≠ k → evalAtG k o fuel stack 0 n = some r →
+        evalAt o fuel stack 0 n = r ∧ evalAt (removeKey o k) fuel (stack.map shift1) 0 n = r) ∧
+    (∀ fuel stack i n r, evalAtG k o fuel stack i n = some r →
+        evalAt o fuel stack i n = r ∧ evalAt (removeKey o k) fuel (stack.map shift1) (i + 1) n = r) ∧
+    (∀ n r, n ≠ k → evalAtG k o (fuelFor o) [] 0 n = some r → r ≠ .error .fuel →
+        fieldValue o n = r ∧ fieldValue (removeKey o k) n = r) := by
+  have h0 : ∀ n, n ≠ k →
+      findField ([(k, Field.removed o.length)] :: o) 0 n = shiftRes 1 (findField o 0 n) := by
+    intro n hn
+    have := findField_removeKey_zero o k n
+    unfold removeKey at this
+    rw [this]; simp only [hn, if_false]
+  have hs := evalAtG_sound [(k, Field.removed o.length)] o k h0
+  refine ⟨?_, ?_, ?_⟩
+  · intro fuel stack n r hn h
+    exact ⟨(hs fuel stack 0 n r h).1, (hs fuel stack 0 n r h).2 0 (Or.inr ⟨rfl, rfl, hn⟩)⟩
+  · intro fuel stack i n r h
+    exact ⟨(hs fuel stack i n r h).1, (hs fuel stack i n r h).2 (i + 1) (Or.inl rfl)⟩
+  · intro n r hn h hfuel
+    have h1 := (hs (fuelFor o) [] 0 n r h).1
+    have h2 := (hs (fuelFor o) [] 0 n r h).2 0 (Or.inr ⟨rfl, rfl, hn⟩)
+    simp only [List.map_nil] at h2
+    refine ⟨h1, ?_⟩
+    unfold fieldValue
+    have hle : fuelFor o ≤ fuelFor (removeKey o k) := by
+      unfold fuelFor; rw [fieldCount_removeKey]; omega
+    have := evalAt_mono_le (removeKey o k) (fuelFor o) (fuelFor (removeKey o k)) hle [] 0 n
+      (by unfold removeKey; rw [h2]; exact hfuel)
+    rw [this]; exact h2
 
-/-- **C07 removeKey_exact (values), proved part.**  If no field body of `o` is
-    `self.k` (a static condition: nothing in `o` can read the removed field
-    from the top), every evaluation inside `o` — from any layer, under any
-    stack, with any fuel — and the value of every other field of
+/-- non-vacuity of the dynamic reading condition: `x: self.k` exists in `o`,
+    but field `n: self.a` does not force it — its value survives the removal,
+    while `x` itself now fails. -/
+example :
+    let o : Obj := [[("k", .normal .default false (.lit 4)), ("a", .normal .hidden false (.lit 1)),
+                     ("x", .normal .default false (.selfField "k")), ("n", .normal .default true (.selfField "a"))]]
+    evalAtG "k" o (fuelFor o) [] 0 "n" = some (.ok 1) ∧ evalAtG "k" o (fuelFor o) [] 0 "x" = none ∧
+    fieldValue (removeKey o "k") "n" = .ok 1 ∧ fieldValue o "x" = .ok 4 ∧
+    fieldValue (removeKey o "k") "x" = .error (.unknownField "k") := by
+  exact ⟨rfl, rfl, rfl, rfl, rfl⟩
+
+/-- Lookups from the top after further extension on either side.  In
+    `a + removeKey(o,k)` every other name is found where `a + o` finds it (one
+    layer further down) and `k` is found only in `a`; in `removeKey(o,k) + b`
+    (`b` closed) `b`'s own fields are found first, then — for names other than
+    `k` — `o`'s, one layer further down than in `o + b`. -/
+theorem C07_removeKey_extend_lookup (o : Obj) (k : Name) :
+    (∀ a n, findField (extend a (removeKey o k)) 0 n =
+        if n = k then shiftRes (o.length + 1) (findField a 0 k)
+        else shiftRes 1 (findField (extend a o) 0 n)) ∧
+    (∀ b n, Closed b →
+        findField (extend (removeKey o k) b) 0 n =
+          (findField b 0 n).orElse (fun _ =>
+            if n = k then none else shiftRes (b.length + 1) (findField o 0 n)) ∧
+        findField (extend o b) 0 n =
+          (findField b 0 n).orElse (fun _ => shiftRes b.length (findField o 0 n))) := by
+  constructor
+  · intro a n
+    have hcons : extend a (removeKey o k) = [(k, Field.removed o.length)] :: extend a o := rfl
+    rw [hcons]
+    unfold findField
+    simp only [List.drop_zero, findFrom, get_single]
+    by_cases h : n = k
+    · subst h
+      simp only [if_true]
+      unfold extend
+      rw [findFrom_append, findFrom_skip_all o _ _ _ (Nat.le_refl _),
+        residual_skip_all _ _ _ (Nat.le_refl _)]
+      simp only [Nat.sub_self, Option.orElse_none]
+      have := findFrom_shift a 0 0 (1 + o.length) n
+      simp only [Nat.zero_add] at this
+      rw [this, Nat.add_comm]
+    · simp only [h, if_false]
+      exact findFrom_shift _ 0 0 1 n
+  · intro b n hb
+    refine ⟨?_, findField_extend_zero o b hb n⟩
+    rw [findField_extend_zero _ b hb n, findField_removeKey_zero]
+    by_cases h : n = k
+    · simp [h, shiftRes]
+    · simp only [h, if_false, shiftRes_shiftRes]
+      rw [Nat.add_comm]
+
+/-- Values after extension on the left-operand side: a field of `a + o` whose
+    evaluation does not read `k` through `self` has the same value in
+    `a + removeKey(o, k)`. -/
+theorem C07_removeKey_values_extend (a o : Obj) (k : Name) :
+    ∀ fuel stack n r, n ≠ k → evalAtG k (extend a o) fuel stack 0 n = some r →
+      evalAt (extend a o) fuel stack 0 n = r ∧
+      evalAt (extend a (removeKey o k)) fuel (stack.map shift1) 0 n = r := by
+  have hcons : extend a (removeKey o k) = [(k, Field.removed o.length)] :: extend a o := rfl
+  have h0 : ∀ n, n ≠ k →
+      findField ([(k, Field.removed o.length)] :: extend a o) 0 n = shiftRes 1 (findField (extend a o) 0 n) := by
+    intro n hn
+    unfold findField
+    simp only [List.drop_zero, findFrom, get_single, hn, if_false]
+    exact findFrom_shift _ 0 0 1 n
+  intro fuel stack n r hn h
+  have hs := evalAtG_sound [(k, Field.removed o.length)] (extend a o) k h0 fuel stack 0 n r h
+  rw [hcons]
+  exact ⟨hs.1, hs.2 0 (Or.inr ⟨rfl, rfl, hn⟩)⟩
+
+/-- **C07 removeKey_exact (values), static corollary.**  If no field body of
+    `o` is `self.k` at all, every evaluation inside `o` — from any layer, under
+    any stack, with any fuel — and the value of every other field of
     `std.objectRemoveKey(o, k)` are intact; `super.k`, `'k' in super` and `k+:`
-    inside `o` keep working.  Missing w.r.t. `_full`: the dynamic refinement
-    (bodies `self.k` that exist but are not forced by the field in question). -/
-theorem C07_removeKey_values_partial (o : Obj) (k : Name) (hs : NoSelfRead (fun f => f = k) o) :
+    inside `o` keep working. -/
+theorem C07_removeKey_values_static (o : Obj) (k : Name) (hs : NoSelfRead (fun f => f = k) o) :
     (∀ fuel stack i n, evalAt (removeKey o k) fuel (stack.map shift1) (i + 1) n = evalAt o fuel stack i n) ∧
     (∀ fuel stack n, n ≠ k → evalAt (removeKey o k) fuel (stack.map shift1) 0 n = evalAt o fuel stack 0 n) ∧
     (∀ n, n ≠ k → fieldValue o n ≠ .error .fuel → fieldValue (removeKey o k) n = fieldValue o n) := by
@@ -348,6 +448,12 @@ open Rsj.Object in
 open Rsj.Object in
 #print axioms C07_removeKey_extend_fieldsOrder
 open Rsj.Object in
-#print axioms C07_removeKey_values_partial
+#print axioms C07_removeKey_values
+open Rsj.Object in
+#print axioms C07_removeKey_values_static
+open Rsj.Object in
+#print axioms C07_removeKey_extend_lookup
+open Rsj.Object in
+#print axioms C07_removeKey_values_extend
 open Rsj.Object in
 #print axioms C07_removeKey_absent
